@@ -100,8 +100,32 @@ def run_dtier(pid, cfg, tier, seed, out, ev):
             brief = {k: v for k, v in (co.detail or {}).items() if k != "relaxed_model"} if isinstance(co.detail, dict) else co.detail
             if relaxed and name in base_clauses:
                 # discharged on the unchanged tree, now not provable, and the query minus its quantified
-                # axioms has a model: reported as a violation candidate (decided below, after the bounded tier)
-                out.suspects.append((name, find_function(name, functions), relaxed, brief))
+                # axioms has a model: replay the candidate natively; without a native witness it is reported
+                # as a violation candidate (decided below, after the bounded tier)
+                fn = find_function(name, functions)
+                c = REGISTRY.get(fn) if fn else None
+                hit = None
+                if c is not None and isinstance(relaxed, dict):
+                    try:
+                        hit = rp.native_search(c, relaxed, seed=seed, budget_s=10 if tier == "quick" else 40,
+                                               thorough=(tier == "thorough"))
+                    except Exception as e:      # a broken replay is not a verdict
+                        hit = {"not_replayable": "native replay raised %s: %s" % (type(e).__name__, e)}
+                if isinstance(hit, dict) and "clause" in hit:
+                    wit = dict(hit.get("inputs") or {})
+                    wit.update({"function": fn, "reproduced": True})
+                    entry = known.match(pid, name, wit)
+                    if entry is not None:
+                        known_list.append(name)
+                        out.known.append((entry, name))
+                    else:
+                        payload = {"property": pid, "obligation": name, "function": fn, "tier": tier, "seed": seed,
+                                   "solver_output": brief, "relaxed_counter_model": relaxed, "native_replay": hit,
+                                   "how_to_replay": "./check %s --replay <this file>" % pid}
+                        out.violations.append((name, write_replay(pid, name, payload), ""))
+                    d["replay"] = hit
+                else:
+                    out.suspects.append((name, fn, relaxed, brief))
             else:
                 out.undecided.append("%s: solver gave no answer (%s)" % (name, brief))
         elif co.status == "refuted":
